@@ -23,55 +23,19 @@ def cmpF (x y : Mod) : Int :=
   else strcmp x.type y.type
 
 /-- the new module replaces the registered one -/
-def beats (prio : Int) (fname : Str) (prev : Mod) : Bool :=
+def beats : Beats := fun prio fname prev =>
   decide (prio > prev.prio) || (decide (prio = prev.prio) && decide (strcmp fname prev.file < 0))
 
-/-- repaired _mod_register (personality handling as in Mod/Load.lean's `register`) -/
-def register (pers : Nat) (mods : List Mod) (fname : Str) (d : Desc) : List Mod × Bool :=
-  if mods.any (·.file == fname) then (mods, false)
-  else
-    match d.type, d.name with
-    | some t, some n =>
-      match mods.find? (sameKey t n) with
-      | some prev =>
-        if beats d.prio fname prev then
-          let mods' := mods.filter (!sameKey t n ·)
-          if d.pers &&& pers = 0 then (mods', false)
-          else (⟨fname, t, n, d.prio, d, false⟩ :: mods', true)
-        else (mods, false)
-      | none =>
-        if d.pers &&& pers = 0 then (mods, false)
-        else (⟨fname, t, n, d.prio, d, false⟩ :: mods, true)
-    | _, _ => (mods, false)
+/-- repaired _mod_register: `registerG` with the new rule -/
+def register : Nat → List Mod → Str → Desc → List Mod × Bool := registerG beats
 
-def loadObj (pers : Nat) (s : LoadSt) (fname : Str) (obj : Obj) : LoadSt :=
-  match obj with
-  | .mod d =>
-    let r := register pers s.mods fname d
-    ⟨r.1, s.opened ++ [fname], if r.2 then s.count + 1 else s.count⟩
-  | _ => ⟨s.mods, s.opened ++ [fname], s.count⟩
+def loadFiles : Nat → Nat → Nat → List File → LoadSt := loadFilesG beats
 
-def loadFile (uid owner pers : Nat) (s : LoadSt) (f : File) : LoadSt :=
-  match f.st with
-  | none => s
-  | some st => if fileOk uid owner st then loadObj pers s f.fname f.obj else s
-
-def loadFiles (uid owner pers : Nat) (files : List File) : LoadSt :=
-  files.foldl (loadFile uid owner pers) ⟨[], [], 0⟩
-
-def loadDir (e : Env) (d : Dir) : Result :=
-  let base := baseOpts e.pers
-  match e.owner with
-  | none => ⟨true, [], [], base, [], []⟩
-  | some owner =>
-    if !pathOk e.uid owner d.path then ⟨true, [], [], base, [], []⟩
-    else
-      let ls := loadFiles e.uid owner e.pers d.files
-      if ls.count = 0 then ⟨true, [], [], base, ls.opened, []⟩
-      else
-        let r := initPhase e.pers e.misc (listSort cmpF ls.mods)
-        ⟨false, r.1, r.2.calls, r.2.opts, ls.opened, r.2.regs⟩
+def loadDir : Env → Dir → Result := loadDirG beats cmpF
 
 def loadAll (e : Env) : Result := loadDir e (chooseDir e)
+
+/-- with the personality tested first (the code since 59829e8 plus findings/C17.patch) -/
+def loadAllPF (e : Env) : Result := loadAll (persFirstEnv e)
 
 end PdshVerif.Mod.Tie
